@@ -250,6 +250,90 @@ fn sq_array_probe(entries: u32, flags: u32) -> String {
     }
 }
 
+/// `layout <entries> <flags> <sq_thread_idle>`: every pointer / mask / size that `setup_io_uring` stores in the `IoUring`
+/// it returns, compared with the kernel's answer (`io_uring_params` offsets applied to the three ring mappings) on the
+/// running kernel.  `ok` or the list of fields that differ.
+fn layout_probe(entries: u32, flags: u32, idle: u32) -> String {
+    use std::cell::RefCell;
+    use std::rc::Rc;
+    #[derive(Default)]
+    struct Seen {
+        params: usize,
+        p: Vec<u32>,
+        maps: Vec<(usize, usize)>, // (mmap offset argument, result address)
+    }
+    let seen: Rc<RefCell<Seen>> = Rc::new(RefCell::new(Seen::default()));
+    let s2 = seen.clone();
+    sc::shim::set_handler(Box::new(move |nr, a, _| {
+        if nr == sc::nr::IO_URING_SETUP {
+            s2.borrow_mut().params = a[1];
+            return None;
+        }
+        if nr == sc::nr::MMAP && (a[4] as i32) >= 0 {
+            let r = unsafe { sc::raw_syscall6(nr, a[0], a[1], a[2], a[3], a[4], a[5]) };
+            if (r as isize) > 0 {
+                let mut g = s2.borrow_mut();
+                let p = g.params as *const u32; // struct io_uring_params: 30 u32 words
+                g.p = (0..30).map(|i| unsafe { *p.add(i) }).collect();
+                g.maps.push((a[5], r));
+            }
+            return Some(r);
+        }
+        None
+    }));
+    let r = rusl::io_uring::setup_io_uring(entries, unsafe { core::mem::transmute::<u32, rusl::platform::IoUringParamFlags>(flags) }, 0, idle);
+    sc::shim::clear_handler();
+    match r {
+        Err(e) => format!("setup-err {}", e.code.map(|c| c.raw() as i64).unwrap_or(-1)),
+        Ok(ring) => {
+            let g = seen.borrow();
+            if g.p.len() != 30 {
+                return "no-ring-mapping-seen".into();
+            }
+            let find = |off: usize| g.maps.iter().find(|m| m.0 == off).map(|m| m.1);
+            let sqb = match find(0) {
+                Some(b) => b,
+                None => return "no-sq-ring-mapping".into(),
+            };
+            let single = g.p[5] & 1 != 0; // IORING_FEAT_SINGLE_MMAP
+            let cqb = if single { sqb } else { find(0x800_0000).unwrap_or(0) };
+            let sqes = find(0x1000_0000).unwrap_or(0);
+            let (parts, cqflags) = ring.verif_raw_parts();
+            let rd = |a: usize| unsafe { core::ptr::read_volatile(a as *const u32) };
+            let p = &g.p;
+            let mut bad: Vec<String> = Vec::new();
+            let mut chk = |name: &str, got: usize, want: usize| {
+                if got != want {
+                    bad.push(format!("{}:got=sq{:+}/cq{:+},want=sq{:+}", name, got as isize - sqb as isize, got as isize - cqb as isize, want as isize - sqb as isize));
+                }
+            };
+            chk("sq.kernel_head", parts.sq_kernel_head as usize, sqb + p[10] as usize);
+            chk("sq.kernel_tail", parts.sq_kernel_tail as usize, sqb + p[11] as usize);
+            chk("sq.kernel_flags", parts.sq_kernel_flags as usize, sqb + p[14] as usize);
+            chk("sq.kernel_dropped", parts.sq_kernel_dropped as usize, sqb + p[15] as usize);
+            chk("sq.kernel_array", parts.sq_kernel_array as usize, sqb + p[16] as usize);
+            chk("sq.entries", parts.sqes as usize, sqes);
+            chk("cq.kernel_head", parts.cq_kernel_head as usize, cqb + p[20] as usize);
+            chk("cq.kernel_tail", parts.cq_kernel_tail as usize, cqb + p[21] as usize);
+            chk("cq.kernel_overflow", parts.cq_kernel_overflow as usize, cqb + p[24] as usize);
+            chk("cq.entries", parts.cqes as usize, cqb + p[25] as usize);
+            if cqflags != 0 {
+                chk("cq.kernel_flags", cqflags, cqb + p[26] as usize);
+            }
+            chk("sq.ring_mask", parts.sq_ring_mask as usize, rd(sqb + p[12] as usize) as usize);
+            chk("sq.ring_entries", parts.sq_ring_entries as usize, rd(sqb + p[13] as usize) as usize);
+            chk("cq.ring_mask", parts.cq_ring_mask as usize, rd(cqb + p[22] as usize) as usize);
+            chk("cq.ring_entries", parts.cq_ring_entries as usize, rd(cqb + p[23] as usize) as usize);
+            chk("sq.ring_entries=params", parts.sq_ring_entries as usize, p[0] as usize);
+            chk("cq.ring_entries=params", parts.cq_ring_entries as usize, p[1] as usize);
+            let n = p[0];
+            drop(g);
+            drop(ring);
+            if bad.is_empty() { format!("layout-ok {}", n) } else { format!("layout-bad {}", bad.join(" ")) }
+        }
+    }
+}
+
 fn main() {
     std::panic::set_hook(Box::new(|_| {}));
     let stdin = std::io::stdin();
@@ -261,6 +345,11 @@ fn main() {
         let w: Vec<&str> = t.split_whitespace().collect();
         let res = if t.starts_with("mode ") {
             "ok".to_string()
+        } else if let ["layout", e, f, i] = w.as_slice() {
+            match (e.parse::<u32>(), f.parse::<u32>(), i.parse::<u32>()) {
+                (Ok(e), Ok(f), Ok(i)) => layout_probe(e, f, i),
+                _ => "bad-op".to_string(),
+            }
         } else if let ["sqarray", e, f] = w.as_slice() {
             match (e.parse::<u32>(), f.parse::<u32>()) {
                 (Ok(e), Ok(f)) => sq_array_probe(e, f),
